@@ -21,12 +21,14 @@ import (
 	"github.com/btcsuite/btcd/txscript/v2"
 	"github.com/btcsuite/btcd/wire/v2"
 	"github.com/lightningnetwork/lnd/chainntnfs"
+	"github.com/lightningnetwork/lnd/fn/v2"
 	"github.com/lightningnetwork/lnd/input"
 	"github.com/lightningnetwork/lnd/internal/verif/vstats"
 	"github.com/lightningnetwork/lnd/keychain"
 	"github.com/lightningnetwork/lnd/lntypes"
 	"github.com/lightningnetwork/lnd/lnwallet"
 	"github.com/lightningnetwork/lnd/lnwallet/chainfee"
+	"github.com/lightningnetwork/lnd/tlv"
 	"pgregory.net/rapid"
 )
 
@@ -403,7 +405,19 @@ type c18Input struct {
 	// them.
 	parent *input.TxInfo
 
+	// blob: the input is an output of a custom (overlay) channel and
+	// carries a non-empty resolution blob (input.ResolutionBlob), which is
+	// what makes an AuxSweeper add its extra output to the sweep. Only
+	// generated when the case runs with a harness aux sweeper.
+	blob bool
+
 	inp input.Input
+}
+
+// blobEligible: wallet utxos and anchors never belong to the custom channel's
+// asset outputs, so they never carry a blob (they are what makes a MIXED set).
+func (m *c18Input) blobEligible() bool {
+	return !m.kind.wallet && m.kind.name != "anchor"
 }
 
 func (m *c18Input) sequence() uint32 {
@@ -447,12 +461,19 @@ func c18BuildInput(m *c18Input, serial int) {
 	desc.SingleTweak[31] = 1
 	heightHint := uint32(90)
 
+	var opts []input.InputOpt
+	if m.blob {
+		opts = append(opts, input.WithResolutionBlob(fn.Some(tlv.Blob{
+			0xc1, 0x8a, byte(serial >> 8), byte(serial),
+		})))
+	}
+
 	switch {
 	case m.kind.wallet:
 		if m.kind.wt == input.TaprootPubKeySpend {
 			desc.HashType = txscript.SigHashDefault
 		}
-		m.inp = input.NewBaseInput(&m.op, m.kind.wt, desc, 0)
+		m.inp = input.NewBaseInput(&m.op, m.kind.wt, desc, 0, opts...)
 
 	case m.kind.reqOut:
 		signed := wire.NewMsgTx(2)
@@ -469,11 +490,12 @@ func c18BuildInput(m *c18Input, serial int) {
 		if m.kind.secondSuccess {
 			v := input.MakeHtlcSecondLevelSuccessAnchorInput(
 				signed, details, [32]byte{1}, heightHint,
+				opts...,
 			)
 			m.inp = &v
 		} else {
 			v := input.MakeHtlcSecondLevelTimeoutAnchorInput(
-				signed, details, heightHint,
+				signed, details, heightHint, opts...,
 			)
 			m.inp = &v
 		}
@@ -481,24 +503,25 @@ func c18BuildInput(m *c18Input, serial int) {
 	case m.kind.succeed:
 		v := input.MakeHtlcSucceedInput(
 			&m.op, desc, make([]byte, 32), heightHint, m.csvDelay,
+			opts...,
 		)
 		m.inp = &v
 
 	case m.kind.cltv:
 		m.inp = input.NewCsvInputWithCltv(
 			&m.op, m.kind.wt, desc, heightHint, m.csvDelay,
-			m.lockTime,
+			m.lockTime, opts...,
 		)
 
 	case m.parent != nil:
 		v := input.MakeBaseInput(
-			&m.op, m.kind.wt, desc, heightHint, m.parent,
+			&m.op, m.kind.wt, desc, heightHint, m.parent, opts...,
 		)
 		m.inp = &v
 
 	default:
 		m.inp = input.NewCsvInput(
-			&m.op, m.kind.wt, desc, heightHint, m.csvDelay,
+			&m.op, m.kind.wt, desc, heightHint, m.csvDelay, opts...,
 		)
 	}
 }
@@ -699,3 +722,153 @@ func c18Delivery(s c18Script) lnwallet.AddrWithKey {
 }
 
 var _ = btcutil.Amount(0)
+
+// ---------------------------------------------------------------------------
+// Harness aux sweeper (custom / overlay channels).
+
+// c18ExtraPk is the P2TR script the harness aux sweeper sends its extra output
+// to (different from every change script of the table).
+var c18ExtraPk = func() []byte {
+	pk := []byte{0x51, 0x20}
+	for i := 0; i < 32; i++ {
+		pk = append(pk, byte(0xa0+i))
+	}
+
+	return pk
+}()
+
+// c18ExtraOutWeight is what one more P2TR output adds to a transaction:
+// (8 value + 1 script length + 34 script) non-witness bytes * 4. (The output
+// count stays a one-byte varint: at most 26 outputs are generated.)
+const c18ExtraOutWeight = int64((8 + 1 + 34) * 4)
+
+// c18AuxFact is what the generator decided about one outpoint.
+type c18AuxFact struct {
+	// blob: the input carries a resolution blob.
+	blob bool
+	// extraVal is the value of the extra output of the request / set the
+	// input was generated for.
+	extraVal int64
+	// extraBudget is this input's additive share of ExtraBudgetForInputs.
+	extraBudget int64
+}
+
+// c18AuxNote is one NotifyBroadcast call.
+type c18AuxNote struct {
+	fee      int64
+	hasExtra bool
+	extra    wire.TxOut
+	isExtra  bool
+	idx      map[wire.OutPoint]int
+}
+
+// c18Aux is an AuxSweeper that follows the documented contract of the
+// interface (sweep/interface.go) and answers from the generated facts only:
+//   - DeriveSweepAddr: one extra P2TR output (IsExtra) exactly when at least
+//     one of the passed inputs carries a resolution blob, else "no output",
+//     which prepareSweepTx reads off the Result as err == nil and
+//     LeftToSome() == None, i.e. fn.Err[SweepOutput](nil);
+//   - ExtraBudgetForInputs: non-negative, additive across inputs;
+//   - NotifyBroadcast: records what it was told.
+type c18Aux struct {
+	mu          sync.Mutex
+	facts       map[wire.OutPoint]c18AuxFact
+	notes       map[chainhash.Hash]c18AuxNote
+	deriveCalls int
+	budgetCalls int
+	violations  []string
+}
+
+func newC18Aux() *c18Aux {
+	return &c18Aux{
+		facts: make(map[wire.OutPoint]c18AuxFact),
+		notes: make(map[chainhash.Hash]c18AuxNote),
+	}
+}
+
+func (a *c18Aux) setFact(op wire.OutPoint, f c18AuxFact) {
+	a.mu.Lock()
+	a.facts[op] = f
+	a.mu.Unlock()
+}
+
+func (a *c18Aux) DeriveSweepAddr(inputs []input.Input,
+	_ lnwallet.AddrWithKey) fn.Result[SweepOutput] {
+
+	a.mu.Lock()
+	defer a.mu.Unlock()
+
+	a.deriveCalls++
+	for _, in := range inputs {
+		f := a.facts[in.OutPoint()]
+		if !f.blob {
+			continue
+		}
+
+		return fn.Ok(SweepOutput{
+			TxOut: wire.TxOut{
+				Value:    f.extraVal,
+				PkScript: append([]byte{}, c18ExtraPk...),
+			},
+			IsExtra: true,
+			InternalKey: fn.Some(keychain.KeyDescriptor{
+				PubKey: c18PubKey,
+			}),
+		})
+	}
+
+	return fn.Err[SweepOutput](nil)
+}
+
+func (a *c18Aux) ExtraBudgetForInputs(
+	inputs []input.Input) fn.Result[btcutil.Amount] {
+
+	a.mu.Lock()
+	defer a.mu.Unlock()
+
+	a.budgetCalls++
+	var sum int64
+	for _, in := range inputs {
+		f := a.facts[in.OutPoint()]
+		if f.blob {
+			sum += f.extraBudget
+		}
+	}
+
+	return fn.Ok(btcutil.Amount(sum))
+}
+
+func (a *c18Aux) NotifyBroadcast(req *BumpRequest, tx *wire.MsgTx,
+	totalFees btcutil.Amount, idx map[wire.OutPoint]int) error {
+
+	a.mu.Lock()
+	defer a.mu.Unlock()
+
+	n := c18AuxNote{
+		fee: int64(totalFees), idx: make(map[wire.OutPoint]int, len(idx)),
+	}
+	for k, v := range idx {
+		n.idx[k] = v
+	}
+	req.ExtraTxOut.WhenSome(func(o SweepOutput) {
+		n.hasExtra = true
+		n.extra = wire.TxOut{
+			Value:    o.Value,
+			PkScript: append([]byte{}, o.PkScript...),
+		}
+		n.isExtra = o.IsExtra
+	})
+	a.notes[tx.TxHash()] = n
+
+	return nil
+}
+
+// take returns the notification recorded for a transaction.
+func (a *c18Aux) take(h chainhash.Hash) (c18AuxNote, bool) {
+	a.mu.Lock()
+	defer a.mu.Unlock()
+
+	n, ok := a.notes[h]
+
+	return n, ok
+}
